@@ -5,6 +5,7 @@ package main
 import (
 	"cmp"
 	"fmt"
+	"math/bits"
 	"os"
 	"strconv"
 	"strings"
@@ -28,6 +29,29 @@ func (a *area) compare(x, y int) int {
 		return x/10 - y/10
 	}
 	return cmp.Compare(x, y)
+}
+
+// slack is the "about" of the property's comparison bound (see run).
+const slack = 2
+
+// raw is the comparison without the call counter (used by the harness's own bookkeeping only).
+func (a *area) raw(x, y int) int {
+	if a.div10 {
+		return x/10 - y/10
+	}
+	return cmp.Compare(x, y)
+}
+
+// equalCount walks the real tree and counts the stored entries whose key compares equal to key.
+func (a *area) equalCount(key int) int {
+	e := 0
+	a.tree.Traverse(func(k, _ int) bool {
+		if a.raw(key, k) == 0 {
+			e++
+		}
+		return true
+	})
+	return e
 }
 
 func (a *area) reset(mode string) {
@@ -97,26 +121,45 @@ func (a *area) run(line string) string {
 	if a.tree == nil {
 		a.reset("plain")
 	}
-	a.calls = 0
-	c := func() string { return " c=" + strconv.Itoa(a.calls) }
+	// The comparison clause of the property is judged here, on the REAL count of every operation, against the bound
+	// computed from the real tree's Count() before the operation (n) and, for lookups/removals, the number E of stored
+	// entries whose key compares equal to the probe (counted with the raw, uncounted comparison):
+	//   Get / Remove              c <= 2*floor(log2(n+1)) + E + slack
+	//   Insert                    c <= 2*floor(log2(n+1)) + 1 + slack
+	//   (Reverse)TraverseStartingAt  c <= n + slack
+	// with slack = 2. The exact count is appended as ` c=N` for information only (the check strips it before comparing).
+	n := a.tree.Count()
+	logTerm := 2 * (bits.Len(uint(n+1)) - 1)
+	judge := func(bound int) string {
+		if a.calls <= bound {
+			return " cmp-ok c=" + strconv.Itoa(a.calls)
+		}
+		return " cmp-bad c=" + strconv.Itoa(a.calls) + " bound=" + strconv.Itoa(bound)
+	}
 	switch {
 	case f[0] == "reset" && len(f) == 2:
 		a.reset(f[1])
 		return "ok"
 	case f[0] == "ins" && len(f) == 3:
+		a.calls = 0
 		a.tree.Insert(hx.Atoi(f[1]), hx.Atoi(f[2]))
-		return "c=" + strconv.Itoa(a.calls)
+		return "done" + judge(logTerm+1+slack)
 	case f[0] == "rem" && len(f) == 2:
-		before := a.tree.Count()
-		a.tree.Remove(hx.Atoi(f[1]))
+		key := hx.Atoi(f[1])
+		e := a.equalCount(key)
+		a.calls = 0
+		a.tree.Remove(key)
 		what := "absent"
-		if a.tree.Count() != before {
+		if a.tree.Count() != n {
 			what = "removed"
 		}
-		return what + c()
+		return what + judge(logTerm+e+slack)
 	case f[0] == "get" && len(f) == 2:
-		v, ok := a.tree.Get(hx.Atoi(f[1]))
-		return optStr(v, ok) + c()
+		key := hx.Atoi(f[1])
+		e := a.equalCount(key)
+		a.calls = 0
+		v, ok := a.tree.Get(key)
+		return optStr(v, ok) + judge(logTerm+e+slack)
 	case f[0] == "first" && len(f) == 1:
 		return optStr(a.tree.First())
 	case f[0] == "last" && len(f) == 1:
@@ -133,12 +176,14 @@ func (a *area) run(line string) string {
 		return v.String()
 	case f[0] == "travfrom" && len(f) == 3:
 		v := &visitor{limit: hx.Atoi(f[2])}
+		a.calls = 0
 		a.tree.TraverseStartingAt(hx.Atoi(f[1]), v.visit)
-		return v.String() + c()
+		return v.String() + judge(n+slack)
 	case f[0] == "rtravfrom" && len(f) == 3:
 		v := &visitor{limit: hx.Atoi(f[2])}
+		a.calls = 0
 		a.tree.ReverseTraverseStartingAt(hx.Atoi(f[1]), v.visit)
-		return v.String() + c()
+		return v.String() + judge(n+slack)
 	case f[0] == "dump" && len(f) == 1:
 		return a.tree.VerifDump()
 	case f[0] == "inv" && len(f) == 1:
